@@ -84,7 +84,7 @@ def check(ctx):
     for b in body.blocks:
         if b.cleanup or b.term.kind != "switch" or body.is_noise(b.term):
             continue
-        e, ls = an.switch_info(b.idx)
+        e, ls = an.switch_info(b.idx, opt=True)
         vals = leaf_values(e)
         cs = [producing_call(v)[0] for v in vals]
         if any(c is not None and c[4] == sbb and flow.short(c[1]).endswith("StrategyAdapter::select") for c in cs) \
